@@ -91,10 +91,11 @@ def model_step(m, op):
 
 
 class C13System:
-    def __init__(self, transform_ops, nest=2, errors=True):
+    def __init__(self, transform_ops, nest=2, errors=True, rename=None):
         self.transform_ops = transform_ops
         self.nest = nest
         self.errors = errors
+        self.rename = rename or {}      # other spellings for the state names (each name is always spelled the same way)
 
     def fresh(self):
         st = Sut({}, GCodeCore)
@@ -123,6 +124,11 @@ class C13System:
             ops.append(["exit"])
             ops.append(["exit!"])
             ops.append(["exit!k"])
+        if self.rename:
+            # delete_state is left out here: the property says nothing about deleting, and the pinned code looks the name up
+            # unstripped there (delete_state("  n ") raises KeyError after save_state("  n ")) - recorded in DESIGN.md as an observation
+            ops = [o for o in ops if o[0] != "transform.delete_state"]
+            ops = [[o[0], [self.rename.get(a, a) if isinstance(a, str) else a for a in o[1]]] + o[2:] if len(o) > 1 else o for o in ops]
         return ops
 
     def _compare(self, tr, mp, what, problems, op):
@@ -231,13 +237,19 @@ ASSUMPTIONS = ["relative tolerance 1e-8 on probe-point images", "pivots are 3-tu
 TINY = [["transform.translate", [1.0, -2.0, 0.5]], ["transform.scale", [2.0, 0.5]]]
 
 
+# state names with surrounding blanks / a line break / non-ASCII letters, and a name that only differs from another in case
+ODD_NAMES = {"a": "  fixture left\n", "b": "Ünïcode B "}
+
+
 def systems(tier):
     # "ctx" = tiny transform alphabet so that save / enter / restore / transform / exit / observe chains (depth 5-6) are reached
     if tier == "quick":
         return [("full-d3", C13System(FULL), 3, None), ("small-d4", C13System(SMALL), 4, None),
-                ("ctx-d6", C13System(TINY, errors=False), 6, None)]
+                ("ctx-d6", C13System(TINY, errors=False), 6, None),
+                ("odd-names-d4", C13System(TINY, rename=ODD_NAMES), 4, None)]
     return [("full-d4", C13System(FULL), 4, None), ("small-d6", C13System(SMALL), 6, None),
-            ("ctx-d7", C13System(TINY, errors=False), 7, None)]
+            ("ctx-d7", C13System(TINY, errors=False), 7, None),
+            ("odd-names-d5", C13System(TINY, rename=ODD_NAMES), 5, None)]
 
 
 def run(tier, seed):
